@@ -149,11 +149,16 @@ def run(ctx):
 
     # ---------------- C13.c death path
     okc = False
+    from .. import paths as _paths
+
+    def dead_worker(conds):
+        return any('is_alive' in norm(t_) and not p_ for t_, p_ in conds) and not any('is_alive' in norm(t_) and p_ for t_, p_ in conds)
     for h in [n for n in ast.walk(ww.node) if isinstance(n, ast.ExceptHandler) and n.type is not None and 'Empty' in norm(n.type)]:
-        for i in [n for n in ast.walk(h) if isinstance(n, ast.If) and 'is_alive' in norm(n.test)]:
-            forget = any(isinstance(x, ast.Assign) and self_attr(x.targets[0]) == handle and isinstance(x.value, ast.Constant) and x.value.value is None for x in i.body)
-            raises = any(isinstance(x, ast.Raise) for x in i.body)
-            okc = forget and raises
+        # on the path of the handler where the worker is found dead: the handle is forgotten and an exception is raised
+        forget = [c_ for s_, c_ in _paths.paths_to(h.body, lambda x: isinstance(x, ast.Assign) and self_attr(x.targets[0]) == handle and
+                                                   isinstance(x.value, ast.Constant) and x.value.value is None) if dead_worker(c_)]
+        raises = [c_ for s_, c_ in _paths.paths_to(h.body, lambda x: isinstance(x, ast.Raise)) if dead_worker(c_)]
+        okc = okc or (bool(forget) and bool(raises))
     cc.instance('empty poll + dead worker: handle forgotten, failure raised', ww.qualname, okc)
     cc.evaluations += 1
     if not okc:
